@@ -17,7 +17,8 @@ inside pylife.materialdata.woehler.maxlike: it passes every call on to scipy's r
 model correspondence only - answers with a vector chosen by the case (`stub`), which is exactly the model's
 "optimiser = arbitrary function" parameter.  One shortcut: MaxLikeFull on data WITHOUT run-outs fixes SD = 0, for which
 `likelihood_finite` returns -inf: the objective is the constant +inf, Nelder-Mead can only shrink its simplex towards
-the start vertex and returns the start after exhausting maxiter = maxfun = 1e5 (about 100 s per call).  There the proxy
+the start vertex and returns the start after exhausting maxiter = maxfun = 1e4 (about 6 s per call, measured; about 100 s
+with the budget of 1e5 that fc45e06 had introduced and /repo commit 8a1c973 took back).  There the proxy
 verifies that the objective is +inf on the start simplex and on probe points and returns the start at once (counted as
 `fmin_constant_inf_shortcuts`); `norun_real` cases run scipy's real Nelder-Mead on it (capped at 4000 evaluations) and
 compare."""
@@ -684,15 +685,18 @@ class C18(Prop):
         "C18: MaxLikeFull on data without run-outs fixes SD = 0, for which likelihood_finite is -inf: the objective is constant "
         "(theorem maxLikeFull_no_runouts_objective_constant), the result is the elementary estimate with TS = 1, 'likelihood >= "
         "start' holds there only as -inf >= -inf (counted: ml_start_vacuous_minus_inf), and the real Nelder-Mead needs its whole "
-        "budget of 1e5 evaluations (about 100 s) to return the start: the harness's optimiser proxy verifies the objective is +inf "
+        "budget of 1e4 evaluations (about 6 s; the budget was 1e5 = about 100 s between /repo commits fc45e06 and 8a1c973) to "
+        "return the start: the harness's optimiser proxy verifies the objective is +inf "
         "on the start simplex and 6 probe points and returns the start at once; `norun_real` cases run scipy's real Nelder-Mead "
         "on that objective, capped at 4000 evaluations (every iteration is the same shrink step towards the start vertex, which "
         "is never replaced), and compare",
         "C18: when the likelihood at the START of an ML search is -inf (objective +inf on the whole start simplex; e.g. one mixed level "
         "and an elementary TS so close to 1 that a fracture below SD has probability 0 in double precision) Nelder-Mead only "
-        "shrinks its simplex and the code returns the start after 1e5 evaluations (about 100 s): the real optimiser is not run "
+        "shrinks its simplex and the code returns the start after its whole budget of 1e4 evaluations (seconds; about 100 s with "
+        "the 1e5 of fc45e06): the real optimiser is not run "
         "on such data sets (counted: ml_start_likelihood_minus_inf_not_optimised); any other run that asks for more than 30000 "
-        "objective evaluations is reported (class optimiser-budget-exceeded; the unchanged code needs < 1500)",
+        "objective evaluations is reported (class optimiser-budget-exceeded; the unchanged code needs < 1500; with the code's "
+        "own limit maxfun = 1e4 since 8a1c973 this can fire only if that limit is raised or dropped)",
         "C18: bayesian.py (pymc) is not part of the property",
         "C18 (formalisation choice): 'the estimate for a data set' is a function of the tests (load, cycles, fracture) alone - "
         "not of the row labels of the DataFrame (checked: repeating / shuffled / string labels vs a fresh RangeIndex), not of the "
@@ -1037,8 +1041,9 @@ class C18(Prop):
             if name in ("MaxLikeInf", "MaxLikeFull") and not (name == "MaxLikeFull" and not has_runouts(rows)):
                 # The likelihood at the START of the search is -inf (e.g. the elementary TS is so small that a fracture below
                 # SD has probability 0 in double precision): every vertex of Nelder-Mead's start simplex is +inf, the
-                # simplex only shrinks towards the start, and the code returns the start after its whole budget of 1e5
-                # evaluations (about 100 s per run, measured).  "Not worse than the start" is then -inf >= -inf; the
+                # simplex only shrinks towards the start, and the code returns the start after its whole budget of 1e4
+                # evaluations (about 100 s per run were measured with the budget 1e5 of fc45e06; /repo commit 8a1c973 went
+                # back to 1e4).  "Not worse than the start" is then -inf >= -inf; the
                 # real optimiser is not run there (the stub-optimiser correspondence is).
                 calls = []
                 probe = analyze(name, rows, stub=lambda call: call["x0"], calls=calls)
@@ -1237,7 +1242,7 @@ class C18(Prop):
 
     def _oracle_norun_real(self, case):
         """MaxLikeFull without run-outs with scipy's real Nelder-Mead (capped at REAL_FMIN_CAP evaluations instead of the
-        code's 1e5: on the constant objective every iteration is the same shrink step towards the start vertex, which is
+        code's 1e4: on the constant objective every iteration is the same shrink step towards the start vertex, which is
         never replaced) returns what the shortcut returns: the start"""
         a = analyze("MaxLikeFull", case["rows"], real_fmin=True)
         b = analyze("MaxLikeFull", case["rows"])
